@@ -38,7 +38,7 @@ FIT_FLOOR = 0.020       # points below 20 ms do not enter the fit
 CONFIRM_MIN = 1.0       # an EDA witness is confirmed if some n takes more than 1 s ...
 CONFIRM_RATIO = 1.8     # ... and time grows at least 1.8x per added pump
 CONFIRM_KILL = 2.5
-CAP = 40                # stop a stage after this many violating families (broken trees would take hours)
+CAP = 30                # stop a stage after this many violating families (broken trees would take hours)
 
 _CTX = {}
 
@@ -346,16 +346,15 @@ def measure(chk, pool, fams, kind, label, stats, big=True, group=None):
     nviol = 0
     alive = []
     smallpt = {}
-    CH = 1500
+    CH = 500
     for c0 in range(0, len(fams), CH):
         chunk = fams[c0:c0 + CH]
         jobs = []
         idx = []
         for f in chunk:
             nm = small_n(f)
-            for n in sorted({max(1, nm // 2), nm}):
-                jobs.append(mkjob(kind, fam_text(f, n)))
-                idx.append((f, n))
+            jobs.append(mkjob(kind, fam_text(f, nm)))
+            idx.append((f, nm))
         res = pool.run(jobs, SMALL_KILL)
         chk.count(len(jobs))
         worst = {}
@@ -382,7 +381,8 @@ def measure(chk, pool, fams, kind, label, stats, big=True, group=None):
                     '%d characters occupy %s for %s CPU s (limit %.0f s, healthy: a few ms): %r' % (
                         len(text), 'compile()' if kind[0] == 'compile' else label,
                         ('> %.1f' % cpu) if out == 'killed' else '%.2f' % cpu, SMALL_LIMIT, _short(text, 70)),
-                    {'cfg': 'small', 'group': group, 'selector': _short(text), 'text': text, 'prefix': f[0],
+                    {'cfg': 'small', 'group': group, 'selector': '%s unit %r + %r' % (group, f[1], f[2]), 'text': text,
+                     'prefix': f[0],
                      'unit': f[1], 'terminator': f[2], 'n': n, 'cpu_s': round(cpu, 3), 'outcome': out,
                      'kind': list(kind)})
             else:
@@ -413,6 +413,11 @@ def measure(chk, pool, fams, kind, label, stats, big=True, group=None):
             t = BIG_KILL if killed else cpu
             stats['big_jobs'] += 1
             stats['big_max'] = max(stats['big_max'], t)
+            if t >= 0.05:
+                sl = stats.setdefault('slowest', [])
+                sl.append((round(t, 3), L, label, _short(f[0], 30), f[1], f[2]))
+                sl.sort(key=lambda x: (-x[0], x[1:]))
+                del sl[12:]
             h = hist[f]
             bad = None
             if h and (killed or t >= 1.0):
@@ -435,7 +440,8 @@ def measure(chk, pool, fams, kind, label, stats, big=True, group=None):
                     'growth:%s:%s|%s|%s' % (group, f[0], f[1], f[2]),
                     '%s is not polynomially bounded on %r + %r*n + %r: %s' % (
                         'compile()' if kind[0] == 'compile' else label, _short(f[0], 40), f[1], f[2], bad),
-                    {'cfg': 'growth', 'group': group, 'selector': _short(fam_text(f, 3)), 'prefix': f[0],
+                    {'cfg': 'growth', 'group': group, 'selector': '%s unit %r + %r' % (group, f[1], f[2]),
+                     'prefix': f[0],
                      'unit': f[1], 'terminator': f[2], 'points': [(l, round(tt, 4), k) for l, tt, k in h],
                      'kind': list(kind)})
             elif not killed:
@@ -663,7 +669,7 @@ def part_a(chk, pool, sv, tier, stats, workdir):
                 'added pump (T-NoEDA counterexample at anchor %d, confirmed on the real code)' % (
                     c['name'], c['prefix'], c['pump'], cf['kill'], cf['n'], len(text),
                     '> ' if cf['killed'] else '', cf['cpu_s'], cf['per_pump'], c['anchor']),
-                {'cfg': 'eda', 'group': c['name'], 'selector': _short(text), 'text': text, 'prefix': c['prefix'],
+                {'cfg': 'eda', 'group': c['name'], 'selector': c['name'], 'text': text, 'prefix': c['prefix'],
                  'unit': c['pump'], 'terminator': cf['kill'], 'n': cf['n'], 'times': cf['hist'],
                  'kind': ['compile'] if pats[c['pi']].via == 'compile' else ['regex', c['pi'], pats[c['pi']].via],
                  'pattern': pats[c['pi']].regex.pattern})
